@@ -15,7 +15,10 @@ DRIVER = "drv_life"
 LEAN_TARGETS = ["Nstd.Life.Props", "Nstd.Life.PropsArrTr", "Nstd.Life.PropsStable", "Nstd.Life.PropsStableMech", DRIVER]
 
 _COMMON_NOTE = ("Trusted: Lean kernel + the three standard axioms; the hand translation of the eight container headers into the slot-level "
-                "model Nstd/Life/Model.lean (validated on every run by the correspondence, not proved: identical op lines on the real headers and on "
+                "model Nstd/Life/Model.lean (for Array.hpp replaced by a machine translation proved equal to the model for reserve / append / resize from a caller's object / clear / remove / swap / ~Array / "
+                "constructors - trusted there instead: the translator tools/gen_life.py and its semantics of the C++ subset, i.e. the pointer machine Nstd/Life/ArrPtr.lean: usize as unbounded Nat, pointer comparison between "
+                "different allocations by one fixed total order with contiguous blocks (used only in the range test ref >= _begin.item && ref < _end.item), allocation never fails, an Iterator argument passed by value, "
+                "values returned as Iterator / T& / Array& dropped, `*d = *(++s)` right operand first; everything else, and the other seven headers, validated on every run by the correspondence, not proved: identical op lines on the real headers and on "
                 "the compiled model; exact comparison of contents, ledger counters and of the COMPLETE lifecycle event log "
                 "construct/copy/assign/destroy/alloc/free with canonical slot names (block serial, slot index, member), so free-list order, "
                 "block layout, Array reallocation and shifting, order of member construction/destruction are all compared); the harness element "
@@ -37,8 +40,9 @@ _COMMON_NOTE = ("Trusted: Lean kernel + the three standard axioms; the hand tran
 MANIFEST = {
     "C04": {
         "technique": "Lean 4 proof over all operation histories of a slot-level lifecycle model of the eight containers (state invariant preserved "
-                     "by every micro step; event log accepted by an independent checker automaton; frame / alias refinement lemmas) + differential "
-                     "correspondence model vs real headers with an element/allocator ledger and an independent Python reference",
+                     "by every micro step; event log accepted by an independent checker automaton; frame / alias refinement lemmas) + tie by TRANSLATION for Array.hpp "
+                     "(tools/gen_life.py translates the member functions from the current header into Lean on every run; the translated functions are proved equal to the model operations) "
+                     "+ differential correspondence model vs real headers with an element/allocator ledger and an independent Python reference",
         "text": "Theorems in lean/Nstd/Life/Props.lean, all for EVERY history incl. a = a, a.append(a[i]), a.resize(n, a[i]), a.append(&a[i], n), a.append(a), "
                 "l.append/prepend/insert(l), m.insert(k, *it), m.insert(m), s.append(s), s.remove(s): lifecycle_ok (complete event log incl. destructors accepted "
                 "by the checker: per slot construct assign* destroy, sources of copies/assignments live, blocks allocated once / freed once with nothing live inside, "
@@ -57,6 +61,15 @@ MANIFEST = {
                 "one temporary per swap call is all sort creates; no stored element is constructed or destroyed; every object touched is an item of the list, hence live), sort_compiles (the fuel suffices, "
                 "every step stays inside [left, right]). "
                 "'Exactly once' is a statement about exception-free C++ (no throwing constructor / assignment, allocation never fails). "
+                "Tie by translation (round 7, lean/Nstd/Life/PropsArrTr.lean): tools/gen_life.py (tokenizer + recursive-descent parser of the C++ subset Array.hpp is written in; refuses anything else) "
+                "regenerates lean/Nstd/Generated/LifeArray.lean from the CURRENT include/nstd/Array.hpp on every run - all 19 member functions that create, destroy or move elements or headers, "
+                "statement by statement, as Lean functions over a pointer machine (Nstd/Life/ArrPtr.lean: null / heap-slot / caller-object pointers, the three data members, new char[] / delete[] / placement new / "
+                "destructor call / assignment as event-emitting primitives, one fuel-bounded recursive function per loop). Proved equal to the model operation (same memory, block table, block counter, COMPLETE event log, "
+                "same data members) on the representation of EVERY reachable state, for every size / capacity / index and every fuel above the stated bound: translated_reserve, translated_append (caller's object), "
+                "translated_append_own_element (a.append(a[i]): the pointer is followed into the new storage), translated_resize (shrink and grow, caller's object), translated_clear, translated_remove (index in and out of range), "
+                "translated_remove_iterator (+ removeFront, removeBack), translated_swap (also a.swap(a)), translated_destructor (~Array = micro step aDestroy), translated_constructor (Array(), Array(capacity)). "
+                "OPEN (translated and loops proved equal to copySlots / fillSlots, function-level equality with the model not proved; tied by the correspondence run only): Array(const Array&), operator=, append(const Array&), "
+                "append(const T*, n), resize(n, a[i]) growing. A change of one of these C++ bodies changes the generated definition: the equality proof fails or the translator refuses -> broken tie, the check searches a failing input. "
                 "Tie to the current headers on every run: exhaustive small scope per container, Array alias ops at every size/capacity boundary, a bucket-chain stream "
                 "(HashMap/HashSet/PoolMap with explicit bucket counts 1..5, keys of one bucket linked by append/prepend/positional insert in every order, then clear/assign/swap/copy/remove, "
                 "then re-use of the same keys), deep Map/MultiMap histories (every removal shape; tools/implcov.py: all 1320 instrumented lines of the eight headers executed), random histories, "
@@ -105,7 +118,8 @@ MANIFEST = {
     },
 }
 
-OPEN = {"C04": [], "C05": []}
+OPEN = {"C04": ["PropsArrTr: function-level equality translated C++ = model operation not proved for Array(const Array&), operator=, append(const Array&), "
+               "append(const T*, n), resize(n, a[i]) growing (bodies translated, loops proved; chain of aPush (elem w j) = copySlots missing)"], "C05": []}
 
 # ---- translator: items per block of the node containers -> lean/Nstd/Generated/LifeConst.lean ---------------------------
 GEN_OUT = C.LEAN / "Nstd" / "Generated" / "LifeConst.lean"
@@ -181,7 +195,8 @@ def translate_array(repo=None):
 
 def gen(ctx):
     ok, msg = translate()
-    ok2, msg2 = translate_array()
+    # Array is no container of C05: its translation is an obligation of C04 only
+    ok2, msg2 = translate_array() if (ctx is None or ctx.prop == "C04") else (True, "Array.hpp not translated for C05")
     if ctx is not None:
         ctx.cov.setdefault("translated", msg + "; " + msg2)
     return ok and ok2, "; ".join(m for o, m in ((ok, msg), (ok2, msg2)) if not o) or (msg + "; " + msg2)
